@@ -132,7 +132,7 @@ def plan(tier, rng, sl, nslices, stats):
     for i in range(cfg["random"]):
         left = ({"kind": "cfg", "g": gcfg.random_case(rng, max_vars=3, max_terms=2, max_prods=5, max_body=3,
                                                        vcs=["str", "int", "lower"])}
-                if i % 5 < 3 else {"kind": "pda", "p": gpda.random_case(rng, max_push=2, vcs=["str", "int", "tuple"])})
+                if i % 5 < 3 else {"kind": "pda", "p": gpda.random_case(rng, max_push=2, vcs=["str", "int", "tuple", "mixed"])})
         r = rng.random()
         if r < 0.3:
             ast = rs.gen_ast(rng, rng.choice([1, 2, 3]), escaped=0)
@@ -140,7 +140,7 @@ def plan(tier, rng, sl, nslices, stats):
             right = {"kind": "regex", "text": rs.render(ast, rng)}
         elif r < 0.93:
             fa = gfa.random_case(rng, max_states=rng.choice([3, 3, 4]), max_syms=rng.choice([1, 2, 3]),
-                                 vcs=["int", "str", "tuple", "varnames", "varnames"])
+                                 vcs=["int", "str", "tuple", "varnames", "varnames", "mixed"])
             if rng.random() < 0.35 and fa["kind"] != "dfa":
                 # an NFA / eps-NFA object that happens to be deterministic
                 seen = set()
@@ -219,4 +219,18 @@ def run_case(c, stats):
             call(obj.intersection, arg)
     if ok and L["kind"] == "cfg" and res is not None and R["kind"] != "other":
         call(res.intersection, arg)      # idempotent on the language: checked by the same contract
+    if ok and L["kind"] == "pda" and res is not None and R["kind"] == "fa" and res.start_state is not None:
+        # (a product without start state - the automaton had none - is outside "all PDAs": nothing to intersect)
+        # the product is a PDA like any other (its states are pairs): intersected again, also with a second
+        # nondeterministic automaton whose subset states carry ';' in their names
+        call(res.intersection, arg)
+        fa2 = gfa.build(gfa.random_case(__import__("random").Random(len(str(c)) + 1), max_states=3, max_syms=2,
+                                        kinds=("nfa", "enfa"), vcs=["int"], token=True))
+        call(res.intersection, fa2)
+    if R["kind"] == "fa" and R["fa"].get("edits"):
+        # the automaton operand is edited through its public mutators (transitions removed, too) and used again
+        gfa.apply_edits(arg, R["fa"])
+        stats.cls("operand_edited")
+        call(obj.intersection, arg)
+        call(lambda: obj & arg)
     return nt
